@@ -19,6 +19,7 @@ Terms: `*` or `T<hex>` (`T_` = empty text).  Token: `L/<terms>` or `R/<from>/<to
   search <token> <ordered> <base> <dict> num=...   -> ok <tids> | panic
   active <token> <tid:hex,...> num=...       -> ok <tids> | panic     (TokenList.FindPattern)
   pget <base> <block;block> <tids>           -> ok <hex,...>          (token.Provider.GetToken, call sequence)
+  sealedseq <base@blocks+base@blocks> <fieldIdx=token|...> num=...  -> ok <tids> | <tids> | ...   (one index, call sequence)
   select <hint> <minVal> <maxVals>           -> ok <l> <r>
   sealed <token> <base> <block;block> num=...      -> ok <tids> | panic
   maxkey                                     -> ok <key of math.MaxFloat64>
@@ -140,6 +141,20 @@ def step (line : String) : String :=
     match base.toNat?, (splitList blocks ";").mapM (bytesList? ·), natList? tids with
     | some base, some blocks, some tids =>
       "ok " ++ fmtList fmtB (providerGetTokens (mkEntries base blocks) blocks none tids)
+    | _, _, _ => "bad-op"
+  | ["sealedseq", flds, calls, num] =>
+    let fld? (f : String) : Option (Nat × List (List Bytes)) :=
+      match f.splitOn "@" with
+      | [b, bl] => do pure ((← b.toNat?), (← (splitList bl ";").mapM (bytesList? ·)))
+      | _ => none
+    let call? (c : String) : Option (Nat × Token) :=
+      match c.splitOn "=" with
+      | [i, t] => do pure ((← i.toNat?), (← token? t))
+      | _ => none
+    match (splitList flds "+").mapM fld?, (splitList calls "|").mapM call?, numTable? num with
+    | some flds, some calls, some tab =>
+      "ok " ++ " | ".intercalate ((sealedSearchSeq (mkPf tab) maxFloatKey flds calls).map fun r =>
+        match r with | none => "panic" | some l => fmtNats l)
     | _, _, _ => "bad-op"
   | ["select", hint, mn, mx] =>
     match bytes? hint, bytes? mn, bytesList? mx with
